@@ -116,6 +116,7 @@ REWRITES = {
     "proc_tokens_walk": ("re", r"(?s)pd\.info\s*\.slice\(tokens\)\s*\.iter\(\)\s*\.filter_map\(\|token\| \{.*\}\)\s*\.collect\(\)\s*\}\s*$", "proc_tokens_walk(pd.info.slice(tokens), &name_range, &local_declarations, &lookup_table, text, previous_token_pos)\n}", "R13 for a closure: the per-token `FnMut` closure of collect_proc_dec, verified separately as a lifted function, and the `iter().filter_map(..).collect()` around it are replaced by a call of an external function"),
     "error_tokens_walk": ("re", r"(?s)info\.slice\(tokens\)\s*\.iter\(\)\s*\.filter_map\(\|token\| \{.*\}\)\s*\.collect::<Vec<SemanticToken>>\(\)\s*\}\s*$", "error_tokens_walk(info.slice(tokens), text, previous_token_pos)\n}", "R13 for a closure: the per-token closure of collect_error and the iterator chain around it are replaced by a call of an external function"),
     "super_get_local_table": ("re", r"\bsuper::get_local_table\b", "get_local_table", "single file: the module path is dropped"),
+    "fold_changes": ("re", r"(?s)changes\.into_iter\(\)\.fold\(self, \|mut acc, change\| \{.*?\n        \}\)", "fold_changes(self, changes)", "R13 for a closure: the fold over the text changes, whose step is verified separately as the lifted `update_step`, is replaced by a call of an external function (the steps applied in order)"),
     "box_as_ref": ("re", r"\bboxed\.as_ref\(\)", r"&**boxed", "Box::as_ref on &Box<T> replaced by its std body `&**self` (no vstd spec; generic over the allocator)"),
     "self_name_clone_to_callee": ("re", r"self\.name\.value\.clone\(\)", r"string_clone(&callee.value)", "captured field path `self.name` of the lifted loop body becomes the parameter `callee` (R6); String::clone -> shim"),
     "ref_ne": ("re", r"\barg_type != param_type\b", r"!datatype_eq(arg_type, param_type)", "`!=` on two `&DataType` (PartialEq for references) written as the derived comparison it resolves to"),
